@@ -6,6 +6,7 @@ import (
 	"strings"
 
 	"verifmc/fw"
+	"verifmc/snap"
 
 	rio "github.com/pip-services3-gox/pip-services3-expressions-gox/io"
 )
@@ -26,9 +27,11 @@ const (
 	opReset
 	opUnread7
 	opUnreadAll
+	opPeeks   // Peek, PeekLine, PeekColumn: observers, must be self-loops of the state graph
+	opLineCol // Line, Column: observers
 )
 
-var c11OpNames = []string{"Read", "Unread", "UnreadMany(2)", "UnreadMany(3)", "Reset", "UnreadMany(7)", "UnreadMany(len+3)"}
+var c11OpNames = []string{"Read", "Unread", "UnreadMany(2)", "UnreadMany(3)", "Reset", "UnreadMany(7)", "UnreadMany(len+3)", "Peek+PeekLine+PeekColumn", "Line+Column"}
 
 // forwardLC is the independent rule model: coordinates after reading
 // characters 0..p (p may be len: the end-of-input slot adds nothing).
@@ -81,6 +84,13 @@ func c11Apply(s *rio.StringScanner, op c11Op) rune {
 		s.UnreadMany(7)
 	case opUnreadAll:
 		s.UnreadMany(c11Len(s) + 3)
+	case opPeeks:
+		s.Peek()
+		s.PeekLine()
+		s.PeekColumn()
+	case opLineCol:
+		s.Line()
+		s.Column()
 	}
 	return -2
 }
@@ -147,23 +157,51 @@ func c11Run(c *fw.Ctx, content string, depthCap int) {
 		hist []c11Op
 		p    int
 	}
+	// obsMode: which observers are called after every replayed operation (0 none, 1 peeks,
+	// 2 line/column, 3 both) - observers are self-loops, so every mode must reach the same state
+	obsMode := 0
 	build := func(h []c11Op) *rio.StringScanner {
 		s := rio.NewStringScanner(content)
+		touch := func() {
+			if obsMode&1 != 0 {
+				s.PeekLine()
+				s.PeekColumn()
+				s.Peek()
+			}
+			if obsMode&2 != 0 {
+				s.Line()
+				s.Column()
+			}
+		}
+		touch()
 		for _, o := range h {
 			c11Apply(s, o)
+			touch()
 		}
 		return s
 	}
 	key := func(s *rio.StringScanner, h []c11Op) string {
-		if pos, ok := scannerPos(s); ok {
-			return fmt.Sprintf("%d/%d/%d", pos, s.Line(), s.Column())
+		// the whole private state of the scanner, hashed BEFORE any observer is called on it:
+		// two histories are merged only if every field agrees (identical fields = identical futures);
+		// a key made of position/Line()/Column() alone would merge states that differ in
+		// bookkeeping the observers hide
+		if _, ok := scannerPos(s); ok {
+			return fmt.Sprintf("%x", snap.Hash(s))
 		}
 		return c11HistStr(h)
 	}
 	// observe checks all state-local laws on the state reached by h (model cursor p).
-	observe := func(h []c11Op, p int) {
+	observe0 := func(h []c11Op, p int) {
 		s := build(h)
+		var pl0, pc0 int
+		if obsMode == 1 {
+			// peeks before line/column
+			pl0, pc0 = s.PeekLine(), s.PeekColumn()
+		}
 		l, col := s.Line(), s.Column()
+		if obsMode == 1 && (s.PeekLine() != pl0 || s.PeekColumn() != pc0) {
+			c.Violation("peek-depends-on-observer-order", "content %q after [%s]: PeekLine/PeekColumn differ before and after Line()/Column() were called", content, c11HistStr(h))
+		}
 		el, ecol := forwardLC(runes, p)
 		// cross-check the rule model with a fresh real forward scan
 		fs := rio.NewStringScanner(content)
@@ -207,6 +245,12 @@ func c11Run(c *fw.Ctx, content string, depthCap int) {
 		c.Eval(1)
 	}
 
+	observe := func(h []c11Op, p int) {
+		for obsMode = 0; obsMode < 4; obsMode++ {
+			observe0(h, p)
+		}
+		obsMode = 0
+	}
 	seen := map[string]bool{}
 	root := node{hist: nil, p: -1}
 	s0 := build(nil)
@@ -223,7 +267,7 @@ func c11Run(c *fw.Ctx, content string, depthCap int) {
 			capped = true
 			continue
 		}
-		for op := opRead; op <= opUnreadAll; op++ {
+		for op := opRead; op <= opLineCol; op++ {
 			s := build(nd.hist)
 			ret := c11Apply(s, op)
 			np, wantRet := c11Model(runes, nd.p, op)
@@ -270,10 +314,10 @@ func init() {
 	fw.Register(&fw.Check{
 		ID:    "C11",
 		Level: "model_checking",
-		Rule: "explicit-state BFS of the real StringScanner: one graph per content over {x,LF,CR}; operations {Read,Unread,UnreadMany(2),UnreadMany(3),UnreadMany(7),UnreadMany(len+3),Reset}; " +
-			"state key = (position,line,column) read from the object; successors built by replaying the shortest history on a fresh scanner; " +
+		Rule: "explicit-state BFS of the real StringScanner: one graph per content over {x,LF,CR}; operations {Read,Unread,UnreadMany(2),UnreadMany(3),UnreadMany(7),UnreadMany(len+3),Reset} and the observers {Peek+PeekLine+PeekColumn, Line+Column} as operations of their own (self-loops on a scanner without hidden state); " +
+			"state key = hash of ALL private fields of the object taken before any observer runs; successors built by replaying the shortest history on a fresh scanner, in four modes that call the observers (peeks / line+column / both / none) after every replayed operation; " +
 			"plus patterns of <=3 characters repeated to lengths up to 66; every state is compared with the cursor model, the independent line/column rule and a fresh forward scan; non-trivial = content with a line break and length>=2",
-		Assume: []string{"the scanner's whole state is (content, position, line, column)", "peek law asserted only where a next character exists (end-of-input slot pinned by C12)"},
+		Assume: []string{"peek law asserted only where a next character exists (end-of-input slot pinned by C12)"},
 		Spaces: func(tier string) []fw.Space {
 			maxLen, depth := 4, 8
 			if tier == "thorough" {
